@@ -353,7 +353,11 @@ func init() {
 			}
 			xc, xt := i.getBig(args[0], name)
 			if xt != nil {
-				return i.newSymStr("big.Int." + name)
+				st := i.newSymStr("big.Int." + name)
+				if name == "String" {
+					st.kind, st.t = "int", xt
+				}
+				return st
 			}
 			return f(xc, args)
 		}
@@ -393,13 +397,26 @@ func init() {
 		return tuple{args[0], true}
 	}
 	externals["(*math/big.Int).SetBytes"] = func(fr *frame, args []value) value {
+		if s, ok := args[1].([]value); ok && hasAbstract(s) {
+			if id, whole := absWhole(s); whole {
+				fr.i.setBig(args[0], nil, fr.i.hashValueTerm(id))
+				return args[0]
+			}
+			if len(s) == 1 {
+				if o, isO := s[0].(opaqueRun); isO && o.kind == "intbytes" {
+					fr.i.setBig(args[0], nil, fr.i.tc.Abs(o.t))
+					return args[0]
+				}
+			}
+			panic(unsupported("big.Int.SetBytes on partially abstract bytes"))
+		}
 		fr.i.setBig(args[0], new(big.Int).SetBytes(valueToBytes(args[1])), nil)
 		return args[0]
 	}
 	externals["(*math/big.Int).Bytes"] = func(fr *frame, args []value) value {
 		xc, xt := fr.i.getBig(args[0], "Bytes")
 		if xt != nil {
-			panic(unsupported("big.Int.Bytes on a symbolic value"))
+			return []value{opaqueRun{"intbytes", xt}}
 		}
 		return bytesToValue(xc.Bytes())
 	}
